@@ -41,6 +41,68 @@ def load_baseline_sigs() -> Dict[str, List[str]]:
     return out
 
 
+def restore_local_names(trees: Dict[str, ast.Module]) -> List[Tuple[str, str, str]]:
+    """Local variables of a pinned function that were renamed are spelled with their pinned names again (a consistent renaming
+    of locals never changes behaviour; the rules may then refer to the pinned vocabulary).  Two cases are recognised: the function
+    binds the same number of locals in the same order of first binding (any number of them renamed), or exactly one pinned local
+    is gone and exactly one new local has appeared.  Names are only restored when they are free in the function."""
+    sigs = load_baseline_sigs()
+    done: List[Tuple[str, str, str]] = []
+    for m, tree in trees.items():
+        fns: List[Tuple[str, ast.FunctionDef]] = []
+        for st in tree.body:
+            if isinstance(st, ast.FunctionDef):
+                fns.append((f"{m}.{st.name}", st))
+            elif isinstance(st, ast.ClassDef):
+                for x in st.body:
+                    if isinstance(x, ast.FunctionDef) and not any(isinstance(d, ast.Attribute) and d.attr in ("setter", "deleter") for d in x.decorator_list):
+                        fns.append((f"{m}.{st.name}.{x.name}", x))
+        for q, fn in fns:
+            old = sigs.get("locals:" + q)
+            if not old:
+                continue
+            params = {a.arg for a in fn.args.posonlyargs + fn.args.args + fn.args.kwonlyargs}
+            if fn.args.vararg:
+                params.add(fn.args.vararg.arg)
+            if fn.args.kwarg:
+                params.add(fn.args.kwarg.arg)
+            seen, cur = set(params), []
+            for x in sorted([x for x in ast.walk(fn) if isinstance(x, ast.Name) and isinstance(x.ctx, ast.Store)], key=lambda x: (getattr(x, "lineno", 0), getattr(x, "col_offset", 0))):
+                if x.id not in seen:
+                    seen.add(x.id)
+                    cur.append(x.id)
+            if cur == old or set(cur) == set(old):
+                continue
+            mp: Dict[str, str] = {}
+            if len(cur) == len(old):
+                mp = {c: o for c, o in zip(cur, old) if c != o}
+                # a pinned name that still exists elsewhere in the function cannot be the target of a restoration
+                if any(o in cur for o in mp.values()):
+                    mp = {}
+            if not mp:
+                gone = [o for o in old if o not in cur]
+                came = [c for c in cur if c not in old]
+                if len(gone) == 1 and len(came) == 1:
+                    mp = {came[0]: gone[0]}
+            if not mp:
+                continue
+            used = {x.id for x in ast.walk(fn) if isinstance(x, ast.Name)} | params
+            if set(mp.values()) & (used - set(mp)):
+                continue
+            inner_args = {a.arg for x in ast.walk(fn) if isinstance(x, (ast.Lambda, ast.FunctionDef, ast.AsyncFunctionDef)) and x is not fn
+                          for a in x.args.posonlyargs + x.args.args + x.args.kwonlyargs}
+            inner_args |= {h.name for x in ast.walk(fn) if isinstance(x, ast.Try) for h in x.handlers if h.name}
+            if (set(mp) | set(mp.values())) & inner_args:
+                continue
+            if any(isinstance(x, (ast.Global, ast.Nonlocal)) for x in ast.walk(fn)):
+                continue
+            for x in ast.walk(fn):
+                if isinstance(x, ast.Name) and x.id in mp:
+                    x.id = mp[x.id]
+            done += [(q, c, o) for c, o in mp.items()]
+    return done
+
+
 def restore_parameter_names(trees: Dict[str, ast.Module]) -> List[Tuple[str, str, str]]:
     """A pinned function whose parameter was renamed (same number of parameters; the names that still exist keep their
     meaning; exactly one pinned name and one current name are left over, or the left-over names sit at the same positions)
@@ -1952,6 +2014,40 @@ def _propagate_attr_aliases(fn: ast.AST) -> int:
     return n
 
 
+def _return_temporaries(fn: ast.AST) -> int:
+    """`x = <expr>; return x` (x bound once and read only by that return) is `return <expr>`."""
+    if not isinstance(fn, (ast.FunctionDef, ast.AsyncFunctionDef)):
+        return 0
+    n = 0
+    stores: Dict[str, int] = {}
+    loads: Dict[str, int] = {}
+    for x in ast.walk(fn):
+        if isinstance(x, ast.Name):
+            d = stores if isinstance(x.ctx, (ast.Store, ast.Del)) else loads
+            d[x.id] = d.get(x.id, 0) + 1
+    params = {a.arg for a in fn.args.args + fn.args.kwonlyargs + fn.args.posonlyargs}
+    pairs = []
+    for node in ast.walk(fn):
+        for fld in ("body", "orelse", "finalbody"):
+            block = getattr(node, fld, None)
+            if not (isinstance(block, list) and len(block) >= 2 and isinstance(block[0], ast.stmt)):
+                continue
+            a, r = block[-2], block[-1]
+            if isinstance(r, ast.Return) and isinstance(r.value, ast.Name) and isinstance(a, ast.Assign) and len(a.targets) == 1 \
+                    and isinstance(a.targets[0], ast.Name) and a.targets[0].id == r.value.id and r.value.id not in params:
+                pairs.append((block, a, r))
+    by_name: Dict[str, int] = {}
+    for _b, _a, r in pairs:
+        by_name[r.value.id] = by_name.get(r.value.id, 0) + 1
+    for block, a, r in pairs:
+        nm = r.value.id
+        # every binding of the name is one of these pairs and every read is the return that follows it
+        if stores.get(nm) == by_name[nm] and loads.get(nm) == by_name[nm]:
+            block[-2:] = [ast.copy_location(ast.Return(value=a.value), a)]
+            n += 1
+    return n
+
+
 _CMP = {ast.Eq: lambda a, b: a == b, ast.NotEq: lambda a, b: a != b, ast.Lt: lambda a, b: a < b, ast.LtE: lambda a, b: a <= b,
         ast.Gt: lambda a, b: a > b, ast.GtE: lambda a, b: a >= b}
 
@@ -2031,6 +2127,8 @@ def desugar_after_inlining(trees: Dict[str, ast.Module]) -> int:
         n += ft.n
         for fn in fns:
             n += _propagate_attr_aliases(fn)
+        for fn in fns:
+            n += _return_temporaries(fn)
         src_has = any(isinstance(x, (ast.Name, ast.Attribute)) and getattr(x, "id", getattr(x, "attr", "")) in ("methodcaller", "getattr") for x in ast.walk(tree))
         if not src_has:
             continue
